@@ -175,7 +175,50 @@ pub fn gen_rules_world(seed: u64) -> SupplyTrace {
         subdir: String::new(),
     };
     labels.push("RULES".into());
-    SupplyTrace { keys, root, caller: vec![(0, 0)], clock: vec![(now, 0)], hash_seeds: vec![r.next()], arrivals: vec![r.next()], file_faults: vec![], labels, work_files: vec![], caller_json_alias: vec![], step_name: None, rel_link_dir: false, read_faults: None, fixed_mtime: false, link_dir_style: 0, work_links: vec![], tz: None }
+    // an inspection in a third of the worlds: the working directory holds copies of some of the last
+    // step's products (some of them tampered with), the scripted command creates / changes / removes files
+    let mut root = root;
+    let mut work_files: Vec<(String, String)> = vec![];
+    if r.chance(1, 3) {
+        let last = root.layout.steps.last().map(|s| s.name.clone()).unwrap_or_default();
+        let names_pool = ["foo", "bar", "baz", "a.c", "b.h", "extra", "report"];
+        for n in names_pool.iter().take(2 + r.idx(4)) {
+            work_files.push((n.to_string(), format!("content-{}", r.below(4))));
+        }
+        // make some of them equal to the last step's products: rewrite that step's product digests to
+        // the digests of these contents (flat names only)
+        for f in root.files.iter_mut() {
+            if let Body::Link(l) = &mut f.body {
+                if l.name == last {
+                    for (n, c) in work_files.iter() {
+                        if r.chance(1, 2) {
+                            let mut d = BTreeMap::new();
+                            d.insert("sha256".to_string(), gen::sha256_hex(c.as_bytes()));
+                            l.products.insert(n.clone(), d);
+                        }
+                    }
+                }
+            }
+        }
+        let mut ops = vec![];
+        for _ in 0..r.below(3) {
+            match r.below(3) {
+                0 => ops.push(FsOp::Write { path: r.pick(&names_pool).to_string(), content: format!("content-{}", r.below(4)) }),
+                1 => ops.push(FsOp::Append { path: r.pick(&names_pool).to_string(), content: "+".into() }),
+                _ => ops.push(FsOp::Remove { path: r.pick(&names_pool).to_string() }),
+            }
+        }
+        let mut inames = names.clone();
+        inames.push("insp".to_string());
+        root.layout.inspect.push(InspSpec {
+            name: "insp".into(),
+            exp_mat: rule_list(&mut r, &inames),
+            exp_prod: rule_list(&mut r, &inames),
+            actor: ActorScript { id: "root#insp".into(), ops, stdout: vec![], stderr: vec![], exit: ExitSpec::Code(0) },
+        });
+        labels.push("INSPECTION".into());
+    }
+    SupplyTrace { keys, root, caller: vec![(0, 0)], clock: vec![(now, 0)], hash_seeds: vec![r.next()], arrivals: vec![r.next()], file_faults: vec![], labels, work_files, caller_json_alias: vec![], step_name: None, rel_link_dir: false, read_faults: None, fixed_mtime: false, link_dir_style: 0, work_links: vec![], tz: None }
 }
 
 pub fn run_c03(_tier: Tier, seed: u64, index: u64, scratch: &Scratch, rec: &mut RunRecord) {
